@@ -12,6 +12,10 @@
                                 maps - are untouched and the result is OK
    [U] C14_perm_model           the same for AutosarModel::sort
    [U] C14_lookups_intact       get_element_by_path and the referrer lists give the same answers afterwards
+   [U] C14_item_names_intact    Element::item_name of every element is what it was (both directions), so with the untouched parent
+                                links every path is; hypotheses: NameFirst (a named element's SHORT-NAME child is its first content
+                                item and its only SHORT-NAME child - what the editing API builds) and MaskOk (the SHORT-NAME entry of a
+                                named type is valid in some version)
    [U] C14_never_fails          on a heap satisfying SortReady (no dangling id, spec lookups of the node types do not panic,
                                 EVERY CHILD IS FINDABLE IN ITS PARENT'S TYPE UNDER VERSION MASK u32::MAX - the unwrap in
                                 ElementRaw::sort -, names inside their string tables, ranked content lists) sort returns OK:
@@ -30,7 +34,7 @@
    [F] C14_v0_skipped_stage_refuted, C14_v0_nan_refuted   the two other defects before fixes 9393763 and 637b913 *)
 From Coq Require Import Permutation.
 From AV Require Import Base.Bytes Base.Outcome Hash.HashModel Tree.Heap Tree.Ops Tree.Script Tree.Sort Tree.SortTiny
-  Tree.SortProofsOrder Tree.SortProofsCmp Tree.SortProofsHeap Tree.SortProofsV0 Tree.SortProofsMain.
+  Tree.SortProofsOrder Tree.SortProofsCmp Tree.SortProofsHeap Tree.SortProofsV0 Tree.SortProofsMain Tree.SortProofsNames.
 Open Scope list_scope.
 Open Scope N_scope.
 
@@ -59,6 +63,13 @@ Theorem C14_lookups_intact : forall T w w', world_rel T w w' ->
   (forall m p r w1, get_element_by_path m p w = Val (r, w1) -> get_element_by_path m p w' = Val (r, w')) /\
   (forall m p r w1, q_refs_to m p w = Val (r, w1) -> q_refs_to m p w' = Val (r, w')).
 Proof. exact lookups_intact. Qed.
+
+Theorem C14_item_names_intact : forall T tab_el tab_at tab_en name_index name_definition_ref srt,
+  StableSort srt -> MaskOk T -> forall i w r w',
+  NameFirst T w -> e_sort_with T tab_el tab_at tab_en name_index name_definition_ref srt i w = Val (r, w') ->
+  forall j n n' nm, w_nodes w j = Some n -> w_nodes w' j = Some n' ->
+    (item_name_p T w n = Val (Some nm) <-> item_name_p T w' n' = Val (Some nm)).
+Proof. exact e_sort_item_names. Qed.
 
 Theorem C14_never_fails : forall T tab_el tab_at tab_en name_index name_definition_ref srt,
   StableSort srt -> forall rk i w,
